@@ -93,6 +93,7 @@ func (t *fnTrans) atEntry() {
 	}
 	t.assume(eq(t.h.get(t.cur, "held"), heldInit))
 	t.assume(eq(t.h.get(t.cur, "rheld"), "((as const (Array Int Bool)) false)"))
+	t.ownEntry()
 	t.contractEntry()
 	if t.g.canary && t.contract != nil {
 		// vacuity guard: `false` must be refutable under the preconditions and invariants
@@ -369,7 +370,7 @@ func (t *fnTrans) enterLoop(b *ssa.BasicBlock, li *loopInfo) {
 // which lock.balance@backedge checks.
 func (t *fnTrans) havocLoop(all bool, vars map[string]bool) {
 	keepGhost := func(hv string) bool {
-		return hv == "held" || hv == "rheld" || t.g.ann.immutableHV[hv]
+		return hv == "held" || hv == "rheld" || hv == ownHV || t.g.ann.immutableHV[hv]
 	}
 	reach := t.cur.reach
 	defers := t.cur.defers
